@@ -245,7 +245,7 @@ def s_match_constant(ctx):
     def item(*a):
         raise AssertionError
     I.models[item] = lambda interp, *a: SReal(cval)
-    arr.fields.update(ndim=ndim, shape=tuple([1] * ndim), item=item)
+    arr.fields.update(ndim=ndim, shape=tuple([1] * ndim), size=1, item=item)  # one element, rank 0 / 1 / 2
     tensor = SObj(ir.Tensor, "tensor")
 
     def numpy_():
